@@ -335,6 +335,27 @@ func strip(v ssa.Value) ssa.Value {
 			v = x.X
 		case *ssa.ChangeInterface:
 			v = x.X
+		case *ssa.UnOp:
+			// captured-variable spill: `t0 = new T (x); *t0 = x; ... *t0` with a single store
+			if x.Op != token.MUL {
+				return v
+			}
+			al, ok := x.X.(*ssa.Alloc)
+			if !ok {
+				return v
+			}
+			var only ssa.Value
+			n := 0
+			for _, r := range *al.Referrers() {
+				if st, ok := r.(*ssa.Store); ok && st.Addr == al {
+					only = st.Val
+					n++
+				}
+			}
+			if n != 1 {
+				return v
+			}
+			v = only
 		default:
 			return v
 		}
@@ -355,7 +376,19 @@ func fieldAddr(v ssa.Value) (*types.Var, ssa.Value) {
 	if st == nil || fa.Field >= st.NumFields() {
 		return nil, nil
 	}
-	return st.Field(fa.Field).Origin(), fa.X
+	return st.Field(fa.Field).Origin(), unspill(fa.X)
+}
+
+// unspill looks through the heap cell go/ssa creates for variables captured by closures.
+func unspill(v ssa.Value) ssa.Value {
+	if u, ok := v.(*ssa.UnOp); ok && u.Op == token.MUL {
+		if _, ok := u.X.(*ssa.Alloc); ok {
+			if w := strip(v); w != v {
+				return w
+			}
+		}
+	}
+	return v
 }
 
 // fieldLoad: if v is a load *(&base.f) or a Field extraction, return (field, base).
